@@ -1131,9 +1131,9 @@ where
     }
 }
 
-/// Verification hook (feature `verif_hooks`, add-only): the slot layout of one index map - for every slot
+/// Verification hook (feature `verif_index_layout`, add-only): the slot layout of one index map - for every slot
 /// its key, its value and the slot `get_key_id` reports for that key.
-#[cfg(feature = "verif_hooks")]
+#[cfg(feature = "verif_index_layout")]
 impl<K: Kmer, D: Debug> DebruijnGraph<K, D> {
     pub fn verif_index_layout(&self, side: Dir) -> Vec<(K, u32, Option<usize>)> {
         let m = match side {
